@@ -211,6 +211,8 @@ class Ctx:
         self.smt_dumps = []
         self.inconclusive = []
         self.nontrivial = set()
+        self.max_replayed_violations = 4
+        self.unreplayed = []
 
     # -- bookkeeping
     def encoded(self, *fns):
@@ -287,6 +289,11 @@ class Ctx:
                 except Exception as e:     # pragma: no cover
                     wit[k] = "unreadable: %s" % e
         rec["witness"] = wit
+        if len(self.violations) >= self.max_replayed_violations:
+            # this case already has confirmed violations; further sat obligations are listed, not replayed
+            rec["replay"] = "not replayed: the case already has %d confirmed violations" % len(self.violations)
+            self.unreplayed.append(full)
+            return verdict, model
         if replay is None:
             self.harness_errors.append("%s: sat but no replay available; witness=%s" % (full, json.dumps(wit)[:400]))
             return verdict, model
@@ -362,7 +369,7 @@ class Ctx:
                     decisions=self.decisions, solver_s=self.solver_s, queries=self.queries,
                     functions=sorted(self.functions), bounds=self.bounds, assumptions=sorted(self.assumptions | set(St.notes)),
                     inconclusive=self.inconclusive, smt_dumps=self.smt_dumps, nontrivial=sorted(self.nontrivial),
-                    absorbed=St.absorbed, float_evals=St.float_evals)
+                    absorbed=St.absorbed, float_evals=St.float_evals, unreplayed=self.unreplayed)
 
 
 class _ModelReader:
@@ -721,6 +728,7 @@ def main(pid, build_cases, files, replays=None, level="model_checking", notes=No
         concrete_float_evaluations=sum(res.get("float_evals", 0) for res in results),
         exhaustive=False,
         harness_errors=herrors[:20],
+        sat_obligations_not_replayed=[u for res in results for u in res.get("unreplayed", [])][:40],
     )
     if notes:
         coverage["explanation"] = notes
